@@ -29,6 +29,9 @@ def run_cfg(ctx, p, cfg):
     if "config_parsing" in p.meta.get("features", []) and "size_trigger" in p.meta.get("features", []):
         # "all limits (including 0)": the limit a document states is the limit the trigger compares with
         common.rule_config_reaches_component(ctx, p, cfg, "Z10", "SizeTriggerDeserializer", "SizeTrigger::new", stored={"limit": 1})
+    if "fixed_window_roller" in p.meta.get("features", []):
+        from rules import c07
+        c07.rule_move_file(ctx, p, cfg, "Z13")   # "the active file never stays above N": a roll that reports success has taken the file away from the active path (C07.R5 re-evaluated)
     with ctx.rule("Z1", "comparator", cfg) as r:
         f = p.fn(SIZE_TRIGGER)
         rets = q.ret_assignments(f)
